@@ -32,8 +32,8 @@ import (
 // Expected: the switch refuses the peer (identity not proven).
 // Actual:   sw.Peers() contains a started peer whose ID() is the ID of V.
 //
-// Run: cd /verif/sim && VERIF_DEFECT_REPRO=1 go1.26.8 test -vet=off -tags verif \
-//        -overlay /verif/build/overlay.json -run TestDefectSwitchIdentity -v ./rigs/connrig/
+//	Run: cd /verif/sim && VERIF_DEFECT_REPRO=1 go1.26.8 test -vet=off -tags verif \
+//	       -overlay /verif/build/overlay.json -run TestDefectSwitchIdentity -v ./rigs/connrig/
 func TestDefectSwitchIdentity(t *testing.T) {
 	if os.Getenv("VERIF_DEFECT_REPRO") != "1" {
 		t.Skip("set VERIF_DEFECT_REPRO=1: this test fails on the unchanged tree by design")
